@@ -157,6 +157,9 @@ class ExtMixin:
         if name in m.classes:
             return ClassVal(name, relpath)
         if name in m.assigns:
+            if name in m.mutated_names and _is_mutable_display(m.assigns[name]):
+                raise Unsupported(f"module-level mutable state `{name}` of {relpath} is modified by functions of the module: the result of a function "
+                                  f"that reads it depends on earlier calls")
             try:
                 return _lit(ast.literal_eval(m.assigns[name]))
             except Exception:
@@ -530,9 +533,14 @@ class ExtMixin:
             if cn is None:
                 continue
             for node in cn.body:
+                if isinstance(node, ast.AnnAssign) and node.value is not None and isinstance(node.target, ast.Name) and node.target.id == attr:
+                    node = ast.Assign(targets=[node.target], value=node.value)
                 if isinstance(node, ast.Assign):
                     for t in node.targets:
                         if isinstance(t, ast.Name) and t.id == attr:
+                            if attr in m.mutated_attrs and _is_mutable_display(node.value):
+                                raise Unsupported(f"class-level mutable state {name}.{attr} is modified by functions of {rp}: it is shared by every "
+                                                  f"subclass and call, so the result of a function that reads it depends on earlier calls")
                             try:
                                 return _lit(ast.literal_eval(node.value))
                             except Exception:
@@ -571,6 +579,11 @@ class _Missing:
 
 
 _MISSING = _Missing()
+
+
+def _is_mutable_display(node):
+    return isinstance(node, (ast.Dict, ast.List, ast.Set, ast.DictComp, ast.ListComp, ast.SetComp)) or (
+        isinstance(node, ast.Call) and isinstance(node.func, ast.Name) and node.func.id in ("dict", "list", "set", "defaultdict", "OrderedDict"))
 
 
 def _lit(v):
